@@ -116,6 +116,109 @@ ob("pxref_section_zero_width", ["C14"], "parse_xref.rs", unwind=5, cuts=X1_ERR, 
    timeout=900, unwind_is_violation=True,
    bound="widths [0,0,0], every count < 2^31: the entry loop must stay bounded by the data")
 
+# ---------------------------------------------------------------------------------------------------------------------
+# lexer: C03 (token level), C01 (cursor safety)
+# ---------------------------------------------------------------------------------------------------------------------
+LEXFN = ["parser::lexer::Lexer::next", "parser::lexer::Lexer::next_word", "parser::lexer::Lexer::skip_whitespace",
+         "parser::lexer::boundary", "parser::lexer::is_whitespace", "parser::lexer::Lexer::is_delimiter",
+         "parser::lexer::Lexer::advance_pos", "parser::lexer::Lexer::new_substr"]
+MEMCHR = [(r"^core::slice::memchr::memchr_naive$", 0, 11)]
+ob("lex_charsets", ["C03"], "lexer.rs", unwind=12, cuts=X1_ERR, functions=["parser::lexer::is_whitespace",
+   "parser::lexer::Lexer::is_delimiter", "parser::lexer::Lexer::is_whitespace"], bound="all 256 bytes")
+for l in (1, 2, 3, 4):
+    ob("lex_next_vs_ref_l%d" % l, ["C03", "C01"], "lexer.rs", unwind=l + 2, unwindset=MEMCHR, unwindset_optional=True,
+       cuts=X1_ERR, stubs=[FMT_STUB],
+       tier="quick" if l <= 3 else "thorough", timeout=1800, mem_gb=12, functions=LEXFN,
+       bound="all buffers of %d bytes; first and second token (range and cursor) against the reference tokenizer" % l)
+for l in (2, 3):
+    ob("lex_peek_l%d" % l, ["C03", "C01"], "lexer.rs", unwind=l + 2, unwindset=MEMCHR, unwindset_optional=True, cuts=X1_ERR,
+       stubs=[FMT_STUB], tier="quick" if l <= 2 else "thorough", timeout=1800, functions=["parser::lexer::Lexer::peek"] + LEXFN,
+       bound="all buffers of %d bytes" % l)
+for l in (1, 2, 3, 4):
+    ob("lex_number_class_l%d" % l, ["C03"], "lexer.rs", unwind=l + 2, cuts=X1_ERR, tier="quick" if l <= 3 else "thorough",
+       allow_unreachable=(l == 1),
+       timeout=900, functions=["parser::lexer::Substr::is_integer", "parser::lexer::Substr::real_number", "parser::lexer::is_int"],
+       bound="all regular-character tokens of %d bytes" % l)
+LEXOPS = {"next": 3, "peek": 3, "back": 3, "expect": 3, "stream": 8, "setpos": 3, "offset": 3, "fromend": 3, "readn": 3,
+          "seekback": 4, "remaining": 3, "seek": 4}
+for op, l in LEXOPS.items():
+    ob("lex_cursor_%s_l%d" % (op, l), ["C01"], "lexer.rs", unwind=l + 3, unwindset=MEMCHR, unwindset_optional=True, cuts=X1_ERR,
+       stubs=[FMT_STUB, "String::from_utf8_lossy -> \"\" (only used for error messages)"], timeout=1200,
+       unwind_is_violation=(op == "seek"),
+       functions=["parser::lexer::Lexer::%s" % op], bound="all buffers of %d bytes x every start position <= len x every "
+       "usize argument: no panic, cursor stays <= len" % l)
+ob("lex_next_stream_eol", ["C03"], "lexer.rs", unwind=12, unwindset=MEMCHR, unwindset_optional=True, cuts=X1_ERR, stubs=[FMT_STUB],
+   functions=["parser::lexer::Lexer::next_stream"], bound="'stream' followed by every 2-byte sequence")
+
+SLFN = ["parser::lexer::str::StringLexer::next_lexeme", "parser::lexer::str::StringLexer::next_byte",
+        "parser::lexer::str::StringLexer::peek_byte", "parser::lexer::str::StringLexer::back"]
+for l in (1, 2, 3, 4, 5):
+    ob("strlex_lit_l%d" % l, ["C03", "C01"], "strlex.rs", unwind=l + 3, cuts=X1_ERR, stubs=[FMT_STUB],
+       tier="quick" if l <= 3 else "thorough", timeout=2400, mem_gb=12, functions=SLFN,
+       bound="all %d-byte texts after '(' : decoded bytes, end detection and consumed length vs the reference" % l)
+ob("strlex_octal3", ["C03"], "strlex.rs", unwind=6, cuts=X1_ERR, stubs=[FMT_STUB], timeout=900, functions=SLFN,
+   bound="all 512 three-digit octal escapes followed by a non-octal digit")
+HLFN = ["parser::lexer::str::HexStringLexer::next_hex_byte", "parser::lexer::str::HexStringLexer::next_non_whitespace_char"]
+for l in (1, 2, 3, 4):
+    ob("strlex_hex_l%d" % l, ["C03", "C01"], "strlex.rs", unwind=l + 3, cuts=X1_ERR, stubs=[FMT_STUB],
+       tier="quick" if l <= 3 else "thorough", timeout=2400, mem_gb=12, functions=HLFN,
+       bound="all %d-byte texts after '<'" % l)
+
+# ---------------------------------------------------------------------------------------------------------------------
+# crypt.rs: C06
+# ---------------------------------------------------------------------------------------------------------------------
+MD5_STUB = "md5::compute -> recording stub returning a fixed digest (X7: hash core trusted; its INPUT is what is checked)"
+RC4_STUB = "crypt::Rc4::encrypt -> recording stub (X7: cipher core trusted; its KEY is what is checked)"
+ob("crypt_v2_keymaterial", ["C06"], "crypt.rs", unwind=50, cuts=X1_ERR, stubs=[FMT_STUB, MD5_STUB, RC4_STUB], timeout=900,
+   functions=["crypt::Decoder::decrypt", "crypt::Decoder::key", "crypt::Decoder::new"],
+   bound="RC4 (V2): every 16-byte file key, key size 5..=16, every object number and generation, 2 data bytes")
+ob("crypt_aesv2_keymaterial_short", ["C06", "C14"], "crypt.rs", unwind=50, cuts=X1_ERR, stubs=[FMT_STUB, MD5_STUB], timeout=900,
+   functions=["crypt::Decoder::decrypt", "crypt::Decoder::key"],
+   bound="AESV2: every key, key size 5..=32, every id/gen, data of 1..=15 bytes (error path); MD5 input incl. 'sAlT'")
+ob("crypt_key_len", ["C06"], "crypt.rs", unwind=34, functions=["crypt::Decoder::key", "crypt::Decoder::new"],
+   bound="V2/AESV2 with key size 1..=16, AESV3 with key size 32, every key byte")
+ob("crypt_aesv3_short", ["C06", "C14"], "crypt.rs", unwind=34, cuts=X1_ERR, stubs=[FMT_STUB], timeout=900,
+   functions=["crypt::Decoder::decrypt"], bound="AESV3, data of 1..=15 bytes: error, no panic")
+ob("crypt_exemptions", ["C06"], "crypt.rs", unwind=20, cuts=X1_ERR, stubs=[FMT_STUB, MD5_STUB, RC4_STUB], timeout=900,
+   functions=["crypt::Decoder::decrypt"],
+   bound="every (object, /Encrypt ref, metadata ref, EncryptMetadata flag) combination, data length 0..=2")
+ob("crypt_rc4_new_total", ["C06", "C14"], "crypt.rs", unwind=18, unwindset=[(r"^crypt::Rc4::new$", 0, 257), (r"^crypt::Rc4::new$", 1, 257)],
+   timeout=1200, functions=["crypt::Rc4::new", "crypt::Rc4::encrypt", "crypt::Rc4::next"], bound="key lengths 1..=16, every key byte")
+
+# ---------------------------------------------------------------------------------------------------------------------
+# object/types.rs: C07 (+ C14 hostile counts / cycles)
+# ---------------------------------------------------------------------------------------------------------------------
+RS_STUB = "std::hash::RandomState::new -> fixed keys (X3)"
+PGFN = ["object::types::PageTree::page", "object::types::PageTree::page_limited"]
+X1_PAGE = X1_ALL
+for h, t, uw in [("types_page_flat2", "quick", 5), ("types_page_nested", "quick", 5), ("types_page_empty_mid", "quick", 6),
+                 ("types_page_bushy", "quick", 13), ("types_page_chain4", "quick", 8), ("types_page_chain13", "quick", 18),
+                 ("types_page_empty", "quick", 4)]:
+    ob(h, ["C07"], "types.rs", unwind=uw, cuts=X1_PAGE, stubs=[FMT_STUB, RS_STUB], tier=t, timeout=1200, functions=PGFN,
+       bound="one concrete tree shape (%s) with accurate counts, every page index 0..=count+2" % h[11:])
+ob("types_page_descent_counts", ["C07"], "types.rs", unwind=6, cuts=X1_PAGE, stubs=[FMT_STUB, RS_STUB], timeout=1200, functions=PGFN,
+   bound="root with 3 tree kids, every (c1,c2,c3) in u32^3 with c1+c2+c3 <= u32::MAX, every u32 page index")
+ob("types_page_hostile_counts", ["C14"], "types.rs", unwind=6, cuts=X1_PAGE, stubs=[FMT_STUB, RS_STUB], timeout=1200, functions=PGFN,
+   bound="same shape, ARBITRARY /Count values (incl. overflowing sums): no panic")
+ob("types_page_self_cycle", ["C14"], "types.rs", unwind=19, cuts=X1_PAGE, stubs=[FMT_STUB, RS_STUB], timeout=1200, functions=PGFN,
+   bound="page tree whose only kid is itself, every count and index: error within the depth budget (recursion unwinding assertion)",
+   unwind_is_violation=True)
+ob("types_inherit_boxes", ["C07"], "types.rs", unwind=7, cuts=X1_PAGE, stubs=[FMT_STUB, RS_STUB], timeout=1200,
+   functions=["object::types::inherit", "object::types::Page::media_box", "object::types::Page::crop_box"],
+   bound="3 ancestor levels + page, every presence pattern of MediaBox and CropBox (2^8)")
+ob("types_inherit_resources", ["C07"], "types.rs", unwind=7, cuts=X1_PAGE, stubs=[FMT_STUB, RS_STUB], timeout=1200,
+   functions=["object::types::inherit", "object::types::Page::resources"],
+   bound="2 ancestor levels + page, every presence pattern of Resources (2^3)")
+
+# ---------------------------------------------------------------------------------------------------------------------
+# parser/mod.rs (experimental: one level of the object parser)
+# ---------------------------------------------------------------------------------------------------------------------
+PARSER_GUARDS = [r"^parser::parse_with_lexer_ctx::<", r"^parser::parse_dictionary_object::<"]
+for l in (1, 2):
+    ob("parser_scalar_total_l%d" % l, ["X99"], "parser.rs", unwind=l + 2, cuts=X1_ALL, guards=PARSER_GUARDS,
+       stubs=[FMT_STUB], timeout=1200, mem_gb=16,
+       functions=["parser::_parse_with_lexer_ctx"], bound="all buffers of %d bytes" % l)
+
 
 def select(prop, tier, seed=0):
     tiers = ("quick",) if tier == "quick" else ("quick", "thorough")
